@@ -501,3 +501,68 @@ def check_stream_opener_close(chk, ix):
                   "Several formatters writing to stdout share one opener: the second formatter's close() would find the stream gone" % (
                       "opened itself" if owned else "did not open (pre-opened, e.g. stdout)", "called" if closed_calls else "not called",
                       "still knows" if kept else "forgets", outs[0][2], "closed, forgotten, True" if owned else "left open, still known, False"))
+
+
+WHAT["F13"] = ("the argument values JSONFormatter.match stores are JSON scalars: a value of any other type (a custom object, a list of them "
+               "from a cardinality-many field) is replaced by the argument's original text - json.dumps never meets a foreign type")
+
+
+def check_json_argument_values(chk, ix):
+    """F13: JSONFormatter.match evaluated on arguments whose values are a number, a text, None, a custom object, a list and a tuple of
+    custom objects, a dict."""
+    chk.rule("F13", WHAT["F13"])
+    jc, it, st, fmt = _json_world(ix)
+    it.list_cap = 100
+    feature = _tok(st, "Feature", "F", status=S("passed"))
+    sc = _tok(st, "Scenario", "S", status=S("passed"))
+    step = _tok(st, "Step", "s", status=S("passed"))
+    obj = lambda lab: st.alloc(HObj("CustomValueTok", {}, label=lab))      # noqa: E731
+    values = [("a number", 42, True), ("a text", "chrome", True), ("None", None, True), ("a custom object", obj("colour"), False),
+              ("a list of custom objects", st.alloc(HObj("list", kind="list", items=[obj("c1"), obj("c2")])), False),
+              ("a tuple of custom objects", (obj("c3"),), False),
+              ("a dictionary", st.alloc(HObj("dict", kind="dict", items=[("k", obj("c4"))])), False)]
+    args = [st.alloc(HObj("ArgumentTok", {"value": v, "original": "original text %d" % i, "name": "arg%d" % i, "start": 0, "end": 1}, label="argument %d" % i))
+            for i, (_, v, _s) in enumerate(values)]
+    match = st.alloc(HObj("MatchTok", {"arguments": st.alloc(HObj("list", kind="list", items=args)), "location": "steps.py:1"}, label="match"))
+    cur = st
+    for (ev, arg) in (("feature", feature), ("scenario", sc), ("step", step), ("match", match)):
+        m = jc.lookup(ev)
+        if m is None:
+            raise AnalysisError("anchor missing: JSONFormatter.%s" % ev)
+        outs = it.call_function(cur, m, [arg], {}, None, self_val=fmt)
+        outs = [o for o in outs if not (o[1] == "raise" and getattr(o[2], "internal", None) == "assert")] or outs
+        if len(outs) != 1 or outs[0][1] != "val":
+            if ev == "match":
+                chk.instance("F13")
+                _fail(chk, "F13", m.fullname, m.file, m.lineno, "match raises", "JSONFormatter.match fails on arguments with values %s: %r"
+                      % ([l for l, _, _ in values], [(k, v) for _, k, v in outs][:1]))
+                return
+            raise AnalysisError("JSONFormatter.%s not evaluable: %r" % (ev, [(k, v) for _, k, v in outs][:2]))
+        cur = outs[0][0]
+    chk.absorb(it)
+
+    def d(ref):
+        return dict((k, v) for k, v in cur.obj(ref).items)
+    try:
+        el = d(cur.obj(d(cur.obj(fmt).fields["current_feature_data"])["elements"]).items[0])
+        stp = d(cur.obj(el["steps"]).items[0])
+        stored = [d(a) for a in cur.obj(d(stp["match"])["arguments"]).items]
+    except Exception as e:      # noqa
+        import traceback
+        raise AnalysisError("JSONFormatter: the stored match arguments were not found in the feature data (%s) %s" % (e, traceback.format_exc()[-600:]))
+    m = jc.lookup("match")
+    for (label, v, scalar), got in zip(values, stored):
+        chk.instance("F13")
+        gv = got.get("value")
+        if scalar:
+            ok = gv == v and (v is None or isinstance(gv, type(v)))
+            want = repr(v)
+        else:
+            ok = isinstance(gv, str) and gv.startswith("original text")
+            want = "the original text"
+        if ok:
+            chk.ok("F13", {"argument value": label, "stored": repr(gv)}, nontrivial_key=label)
+        else:
+            _fail(chk, "F13", m.fullname, m.file, m.lineno, "%s -> %r" % (label, gv), "an argument whose value is %s is stored in the JSON data as %r "
+                  "(expected %s): json.dumps fails on it at the end of the feature, the report is cut off and the run aborts" % (label, gv, want))
+    chk.require_instances("F13", 7)
